@@ -21,7 +21,7 @@ EmitBehaviour ==
 \* what the previous connection of this client object left behind: nothing / an authenticated
 \* stream / (not authenticated) the negotiation manager that was waiting for an answer
 PrevClass == IF prev.none THEN "none" ELSE IF prev.authed THEN "authed" ELSE prev.lst
-GenView == <<cfg, PrevClass, c.sock, c.enc, c.wrap, c.lst, c.lq, c.ver, c.authed, c.session, c.smEnabled, c.smResumed,
+GenView == <<cfg, PrevClass, c.sock, c.enc, c.wrap, c.frag, c.lst, c.lq, c.ver, c.authed, c.session, c.smEnabled, c.smResumed,
              c.canResume, c.redirect, c.mech, c.step, c.iq>>
 
 =============================================================================
